@@ -1,5 +1,8 @@
 #!/bin/bash
-# usage: tools/coqshow.sh coq/Theory/X.v LINE  -- prints the proof state after LINE
+# usage: tools/coqshow.sh coq/Theory/X.v LINE [TAIL] -- prints the proof state after LINE (compiled with coqc)
 f="$1"; n="$2"
-cd /verif/coq
-( head -n "$n" "/verif/$f"; echo; echo "Show."; ) | timeout 120 coqtop -Q . BV -w -notation-overridden 2>&1 | tail -n "${3:-40}"
+mkdir -p /verif/coq/_cases/show
+t="/verif/coq/_cases/show/Show_$$.v"
+( head -n "$n" "/verif/$f"; echo; echo "Show."; echo "Abort."; ) > "$t"
+cd /verif/coq && timeout 300 coqc -Q . BV -w -notation-overridden "$t" 2>&1 | tail -n "${3:-40}"
+rm -f /verif/coq/_cases/show/Show_$$.*  /verif/coq/_cases/show/.Show_$$.*
